@@ -251,7 +251,7 @@ pub fn explore(args: &Args, rng: &mut Rng, repo: &str) -> Explore {
     let dir = live.dir.clone();
     drop(live);
     let _ = std::fs::remove_dir_all(&dir);
-    let h = http_fuzz(args, rng, 1500 * scale);
+    let h = http_in_child(args, scale);
     eprintln!("c16 explore timing: http {:?}", t0.elapsed() - t_live);
     ex.failures.extend(h.failures);
     ex.debug_only.extend(h.debug_only);
@@ -615,25 +615,255 @@ fn start_daemon(args: &Args) -> Daemon {
     Daemon { port, exit: Some(exit_tx), dir }
 }
 
-/// Sends one raw HTTP/1.1 request, returns the status code (None: the connection was closed without a response).
-fn http(port: u16, raw: &[u8]) -> Option<u16> {
+/// Sends one raw HTTP/1.1 request, returns the status code (None: the connection was closed without a response)
+/// and the response body.
+fn http_full(port: u16, raw: &[u8]) -> (Option<u16>, Vec<u8>) {
     use std::io::{Read, Write};
-    let mut s = std::net::TcpStream::connect(("127.0.0.1", port)).ok()?;
-    s.set_read_timeout(Some(std::time::Duration::from_secs(20))).ok()?;
-    s.write_all(raw).ok()?;
+    let Ok(mut s) = std::net::TcpStream::connect(("127.0.0.1", port)) else { return (None, Vec::new()) };
+    let _ = s.set_read_timeout(Some(std::time::Duration::from_secs(60)));
+    if s.write_all(raw).is_err() { return (None, Vec::new()) }
     let mut buf = Vec::new();
-    let mut chunk = [0u8; 4096];
+    let mut chunk = [0u8; 8192];
     loop {
-        match s.read(&mut chunk) { Ok(0) => break, Ok(n) => { buf.extend_from_slice(&chunk[..n]); if buf.len() > 1 << 20 { break } } Err(_) => break }
+        match s.read(&mut chunk) { Ok(0) => break, Ok(n) => { buf.extend_from_slice(&chunk[..n]); if buf.len() > 8 << 20 { break } } Err(_) => break }
     }
     let head = String::from_utf8_lossy(&buf[..buf.len().min(16)]).into_owned();
-    head.strip_prefix("HTTP/1.1 ").and_then(|r| r.get(..3)).and_then(|c| c.parse().ok())
+    let status = head.strip_prefix("HTTP/1.1 ").and_then(|r| r.get(..3)).and_then(|c| c.parse().ok());
+    let body = buf.windows(4).position(|w| w == b"\r\n\r\n").map(|i| buf[i + 4..].to_vec()).unwrap_or_default();
+    (status, body)
+}
+
+struct HttpCtx { port: u16, inflight: std::path::PathBuf }
+
+impl HttpCtx {
+    /// One request against the daemon. The request is written to the in-flight file first (if the process
+    /// dies, the parent process reports that request). A panic on any daemon thread is seen by the
+    /// process-wide hook. Returns (status, panicked).
+    fn send(&self, ex: &mut Ex, origin: &str, raw: &[u8]) -> (Option<u16>, bool) {
+        let _ = std::fs::write(&self.inflight, raw);
+        let before = crate::PANIC_COUNT.load(std::sync::atomic::Ordering::SeqCst);
+        let status = http_full(self.port, raw).0;
+        let after = crate::PANIC_COUNT.load(std::sync::atomic::Ordering::SeqCst);
+        ex.n += 1;
+        if after != before {
+            let (msg, site) = crate::LAST_PANIC.lock().unwrap_or_else(|e| e.into_inner()).clone().unwrap_or_else(|| ("<no message>".into(), "?".into()));
+            ex.panic("http:daemon", origin, raw, Caught { msg, site });
+            (status, true)
+        } else {
+            let outcome = match status { Some(c) => format!("{}xx", c / 100), None => "no-response".into() };
+            *ex.dist.entry("http:daemon".into()).or_default().entry(origin.into()).or_default().entry(outcome).or_default() += 1;
+            (status, false)
+        }
+    }
+}
+
+fn request(method: &str, path: &str, content_type: Option<&str>, body: &[u8]) -> Vec<u8> {
+    let mut raw = format!("{method} {path} HTTP/1.1\r\nHost: localhost\r\nConnection: close\r\nAuthorization: Bearer secret\r\nUser-Agent: c16\r\n").into_bytes();
+    if let Some(ct) = content_type { raw.extend_from_slice(format!("Content-Type: {ct}\r\n").as_bytes()); }
+    raw.extend_from_slice(format!("Content-Length: {}\r\n\r\n", body.len()).as_bytes());
+    raw.extend_from_slice(body);
+    raw
+}
+
+//------------------------------------------------------------------ E': sweep over the route table
+
+/// Boundary values for every path segment that is parsed into an integer (history rows / offset / after /
+/// before, versions, seconds, ASNs). The values that overflow a capacity computation come first.
+const NUMERIC: [&str; 24] = ["18446744073709551615", "18446744073709551616", "9223372036854775807", "9223372036854775808", "4611686018427387904",
+    "1152921504606846976", "281474976710656", "4294967296", "4294967295", "2147483648", "65536", "0", "1", "10", "-1", "-9223372036854775808", "-9223372036854775809",
+    "+1", "+18446744073709551615", "00000000000000000000000000000001", "99999999999999999999999999999999999999999999999999", "1e3", "0x10", "%2B1"];
+const ODD_HANDLES: [&str; 7] = ["a%5Cb", "%E2%82%AC", "a%2Fb", "ta", "-", "%00", "%20"];
+
+/// Malformed bodies for every route that reads a body: the handler must answer with an error.
+fn sweep_bodies() -> Vec<(Vec<u8>, Option<&'static str>)> {
+    let j = Some("application/json");
+    let x = Some("application/xml");
+    let mut v: Vec<(Vec<u8>, Option<&'static str>)> = vec![
+        (b"".to_vec(), j), (b" ".to_vec(), j), (b"\n\t \r\n  ".to_vec(), j), (b"<".to_vec(), j), (b"{".to_vec(), j), (b"[".to_vec(), j), (b"\"".to_vec(), j),
+        (b"null".to_vec(), j), (b"true".to_vec(), j), (b"0".to_vec(), j), (b"\"\"".to_vec(), j), (b"{}".to_vec(), j), (b"[]".to_vec(), j), (b"[[[[[[[[[[[[[[[[".to_vec(), j),
+        (b"{\"handle\":".to_vec(), j), (b"{\"handle\": \"x\", \"resources\": {\"asn\": \"".to_vec(), j), (b"{\"added\": [{\"asn\": 1, \"prefix\":".to_vec(), j),
+        (b"<repository_response xmlns=\"http://www.hactrn.net/uris/rpki/rpki-setup/\" version=\"1\"".to_vec(), x),
+        (b"<parent_response".to_vec(), x), (b"<?xml version=\"1.0\"?>".to_vec(), x), (b"  <".to_vec(), x), (b"<a></a>".to_vec(), x),
+        (b"\xef\xbb\xbf{}".to_vec(), j), (b"\xff\xfe<\x00".to_vec(), j), (vec![0u8; 3], j),
+        (b"".to_vec(), None), (b" ".to_vec(), Some("text/plain")), (b"{}".to_vec(), x), (b"<".to_vec(), Some("text/plain")), (b"null".to_vec(), None),
+        (b"{}".to_vec(), Some("application/rpki-updown")), (b"".to_vec(), Some("multipart/form-data; boundary=x")),
+    ];
+    // type-correct JSON of the various request types, so that every route also sees a decodable wrong document
+    for b in [json!({"handle": "zz"}), json!({"added": [], "removed": []}), json!({"add_or_replace": [], "remove": []}), json!({"add": [], "remove": []}),
+              json!({"resources": {"asn": "", "ipv4": "", "ipv6": ""}}), json!({"base_uri": "rsync://localhost/repo/"}), json!({"cas": []})] {
+        v.push((b.to_string().into_bytes(), j));
+    }
+    v
+}
+
+#[derive(serde::Deserialize)]
+struct Seg { k: String, v: String, t: String }
+#[derive(serde::Deserialize)]
+struct Route { method: String, segs: Vec<Seg>, path: String }
+#[derive(serde::Deserialize)]
+struct RouteTable { routes: Vec<Route> }
+
+/// The route table regenerated from /repo by translate/t_routes.py (the one C13 proves things about).
+fn route_table(args: &Args) -> Vec<Route> {
+    let path = std::env::var("KV_ROUTES").map(std::path::PathBuf::from).unwrap_or_else(|_| args.out.join("../../../coq/gen/GenRoutes.json"));
+    let txt = std::fs::read(&path).unwrap_or_else(|e| panic!("route table {}: {e} (run translate/t_routes.py)", path.display()));
+    let t: RouteTable = serde_json::from_slice(&txt).expect("route table format");
+    t.routes
+}
+
+/// The path of a route with its parameters filled in. `combo` selects which existing objects are named;
+/// `override_at` replaces the parameter at one segment index.
+fn fill(route: &Route, combo: usize, override_at: Option<(usize, &str)>, numeric_default: &str) -> String {
+    let mut out = String::new();
+    for (i, seg) in route.segs.iter().enumerate() {
+        if let Some((k, v)) = override_at { if k == i { out.push('/'); out.push_str(v); continue } }
+        match seg.k.as_str() {
+            "L" => { out.push('/'); out.push_str(&seg.v); }
+            "R" => { out.push_str(if route.path.starts_with("/rrdp") { "/notification.xml" } else if route.path.starts_with("/ui") { "/index.html" } else { "" }); }
+            _ => {
+                let v = match (seg.t.as_str(), combo) {
+                    ("CaHandle", 0) => "testbed", ("CaHandle", 1) => "kid", ("CaHandle", _) => "nosuchca",
+                    ("ChildHandle", 0) => "kid", ("ChildHandle", _) => "nochild",
+                    ("ParentHandle", 0) => "ta", ("ParentHandle", 1) => "testbed", ("ParentHandle", _) => "noparent",
+                    ("PublisherHandle", 0) => "kid", ("PublisherHandle", 1) => "testbed", ("PublisherHandle", _) => "nopub",
+                    _ => match seg.v.as_str() { "ca" | "publisher" => if combo == 0 { "testbed" } else { "kid" }, "asset" => "x.js", "customer" => "65000", _ => numeric_default },
+                };
+                out.push('/'); out.push_str(v);
+            }
+        }
+    }
+    if out.is_empty() { out.push('/'); }
+    out
+}
+
+fn is_numeric_seg(seg: &Seg) -> bool { (seg.k == "O" || seg.k == "P") && seg.t.is_empty() && !matches!(seg.v.as_str(), "ca" | "publisher" | "asset") }
+
+/// Objects the routes can name: CA `kid` (child of `testbed`, with parent and repository), set up over HTTP.
+fn http_setup(ctx: &HttpCtx, ex: &mut Ex) {
+    let post = |path: &str, body: &Value| http_full(ctx.port, &request("POST", path, Some("application/json"), body.to_string().as_bytes()));
+    let get = |path: &str| http_full(ctx.port, &request("GET", path, None, b""));
+    let mut steps: Vec<(&str, bool)> = Vec::new();
+    steps.push(("create kid", post("/api/v1/cas", &json!({"handle": "kid"})).0 == Some(200)));
+    let child_req: Value = serde_json::from_slice(&get("/api/v1/cas/kid/id/child_request.json").1).unwrap_or(Value::Null);
+    let (st, body) = post("/api/v1/cas/testbed/children", &json!({"handle": "kid", "resources": {"asn": "AS65001", "ipv4": "10.1.0.0/16", "ipv6": "2001:db8:1::/48"}, "id_cert": child_req["id_cert"]}));
+    steps.push(("add child", st == Some(200)));
+    let parent_resp: Value = serde_json::from_slice(&body).unwrap_or(Value::Null);
+    steps.push(("add parent", post("/api/v1/cas/kid/parents", &json!({"handle": "testbed", "response": parent_resp})).0 == Some(200)));
+    let pub_req: Value = serde_json::from_slice(&get("/api/v1/cas/kid/id/publisher_request.json").1).unwrap_or(Value::Null);
+    let (st, body) = post("/api/v1/pubd/publishers", &pub_req);
+    steps.push(("add publisher", st == Some(200)));
+    let repo_resp: Value = serde_json::from_slice(&body).unwrap_or(Value::Null);
+    steps.push(("set repo", post("/api/v1/cas/kid/repo", &json!({"repository_response": repo_resp})).0 == Some(200)));
+    steps.push(("roa", post("/api/v1/cas/testbed/routes", &json!({"added": [{"asn": 65000, "prefix": "10.0.0.0/24", "max_length": 24}], "removed": []})).0 == Some(200)));
+    for (name, ok) in steps {
+        *ex.dist.entry("http:daemon".into()).or_default().entry("setup".into()).or_default().entry(format!("{name}: {}", if ok { "ok" } else { "FAILED" })).or_default() += 1;
+    }
+}
+
+/// Every route of the table: numeric boundary values at every integer-parsed segment, odd handles at every
+/// handle segment, and (for routes that are not GET) every malformed body, all with the admin token so that the
+/// handler body is reached. `deletes` selects the DELETE routes (run last: they destroy the objects).
+fn route_sweep(ctx: &HttpCtx, ex: &mut Ex, routes: &[Route], deletes: bool) {
+    let bodies = sweep_bodies();
+    for route in routes.iter().filter(|r| (r.method == "DELETE") == deletes) {
+        let m = route.method.as_str();
+        let default_body: &[u8] = if m == "GET" { b"" } else { b"{}" };
+        // (1) integers
+        let num_positions: Vec<usize> = route.segs.iter().enumerate().filter(|(_, s)| is_numeric_seg(s)).map(|(i, _)| i).collect();
+        'num: for &pos in &num_positions {
+            for v in NUMERIC {
+                for combo in 0..2 {
+                    let path = fill(route, combo, Some((pos, v)), "10");
+                    if ctx.send(ex, "route-sweep/numeric-segment", &request(m, &path, Some("application/json"), default_body)).1 { break 'num }
+                }
+            }
+        }
+        if num_positions.len() > 1 {
+            for v in NUMERIC {
+                let path = fill(route, 0, None, v);
+                if ctx.send(ex, "route-sweep/numeric-segment", &request(m, &path, Some("application/json"), default_body)).1 { break }
+            }
+        }
+        // (2) handles
+        for (pos, _) in route.segs.iter().enumerate().filter(|(_, s)| s.k == "P" && !is_numeric_seg(s)) {
+            for v in ODD_HANDLES {
+                let path = fill(route, 0, Some((pos, v)), "10");
+                if ctx.send(ex, "route-sweep/handle-segment", &request(m, &path, Some("application/json"), default_body)).1 { break }
+            }
+        }
+        // (3) bodies
+        if m != "GET" {
+            'body: for combo in 0..3 {
+                let path = fill(route, combo, None, "10");
+                for (b, ct) in &bodies {
+                    if ctx.send(ex, "route-sweep/malformed-body", &request(m, &path, *ct, b)).1 { break 'body }
+                }
+            }
+        } else {
+            for combo in 0..3 {
+                let path = fill(route, combo, None, "10");
+                ctx.send(ex, "route-sweep/get", &request(m, &path, None, b""));
+                ctx.send(ex, "route-sweep/get", &request(m, &format!("{path}/"), None, b""));
+                ctx.send(ex, "route-sweep/get", &request(m, &path, Some("application/json"), b"{}"));
+            }
+        }
+    }
+}
+
+/// Entry of the child process (`--mode http-child`): runs the HTTP part and writes `<out>/http_result.json`.
+pub fn http_child(args: &Args) -> i32 {
+    let scale = args.get_u64("explore", 1).max(1);
+    let mut rng = Rng::new(args.seed ^ 0x6874_7470);
+    let r = http_fuzz(args, &mut rng, 1500 * scale);
+    let v = json!({"failures": r.failures, "debug_only": r.debug_only, "distribution": r.distribution, "evaluations": r.evaluations});
+    std::fs::write(args.out.join("http_result.json"), serde_json::to_vec(&v).unwrap()).expect("write http_result.json");
+    0
+}
+
+/// The HTTP part runs in a child process of the harness: a request that makes the daemon code abort the process
+/// (allocation failure, `process::exit`, a panic while panicking) then ends the child only, and the request that
+/// was in flight is reported as the failing input.
+fn http_in_child(args: &Args, scale: u64) -> Explore {
+    let result = args.out.join("http_result.json");
+    let inflight = args.out.join("http_inflight.bin");
+    let _ = std::fs::remove_file(&result);
+    let _ = std::fs::remove_file(&inflight);
+    let exe = std::env::current_exe().expect("current_exe");
+    let status = std::process::Command::new(exe)
+        .args(["--seed", &args.seed.to_string(), "--tier", &args.tier, "--out"]).arg(&args.out)
+        .args(["--mode", "http-child", "--explore", &scale.to_string()])
+        .status().expect("spawn http child");
+    if let Ok(txt) = std::fs::read(&result) {
+        if let Ok(v) = serde_json::from_slice::<Value>(&txt) {
+            if status.success() {
+                return Explore {
+                    failures: v["failures"].as_array().cloned().unwrap_or_default(), debug_only: v["debug_only"].as_array().cloned().unwrap_or_default(),
+                    distribution: v["distribution"].clone(), evaluations: v["evaluations"].as_u64().unwrap_or(0),
+                }
+            }
+        }
+    }
+    // the child died: the in-flight request is the failing input
+    let raw = std::fs::read(&inflight).unwrap_or_default();
+    let shown = if raw.len() > 4096 { &raw[..4096] } else { &raw[..] };
+    let rec = json!({
+        "index": "explore-http-child", "class": {"panic_site": "process-ended", "target": "http:daemon"},
+        "what": format!("the process running the daemon ended ({status}) while this request was in flight"),
+        "input_hex": hex(shown), "input_len": raw.len(), "input_lossy": String::from_utf8_lossy(shown),
+    });
+    Explore { failures: vec![rec], debug_only: vec![], distribution: json!({"http:daemon": {"child-process": {format!("ended: {status}"): 1}}}), evaluations: 0 }
 }
 
 pub fn http_fuzz(args: &Args, rng: &mut Rng, n: u64) -> Explore {
     let mut ex = Ex::default();
     let mut daemon = start_daemon(args);
     let port = daemon.port;
+    let ctx = HttpCtx { port, inflight: args.out.join("http_inflight.bin") };
+    let routes = route_table(args);
+    http_setup(&ctx, &mut ex);
+    let t0 = std::time::Instant::now();
+    route_sweep(&ctx, &mut ex, &routes, false);
+    eprintln!("c16 http: route sweep over {} routes, {} requests, {:?}", routes.len(), ex.n, t0.elapsed());
     let bodies: Vec<String> = vec![
         json!({"handle": "kid", "resources": {"asn": "AS65001", "ipv4": "10.1.0.0/16", "ipv6": ""}, "id_cert": "AAAA"}).to_string(),
         json!({"added": [{"asn": 65001, "prefix": "10.1.2.0/24", "max_length": 24}], "removed": []}).to_string(),
@@ -682,20 +912,9 @@ pub fn http_fuzz(args: &Args, rng: &mut Rng, n: u64) -> Explore {
         raw.extend_from_slice(&ua);
         raw.extend_from_slice(format!("Content-Type: application/json\r\nContent-Length: {}\r\n\r\n", body.len()).as_bytes());
         raw.extend_from_slice(body.as_bytes());
-        // the request is handled on the daemon's threads: a panic there is seen by the process-wide hook
-        let before = crate::PANIC_COUNT.load(std::sync::atomic::Ordering::SeqCst);
-        let status = http(port, &raw);
-        let after = crate::PANIC_COUNT.load(std::sync::atomic::Ordering::SeqCst);
-        ex.n += 1;
         let origin = if (i as usize) < seeds.len() { "seed-route" } else { "mutated-route" };
-        if std::env::var("C16_HTTP_DEBUG").is_ok() && (i as usize) < seeds.len() { eprintln!("http {method} {path} -> {status:?} panics {}", after - before); }
-        if after != before {
-            let (msg, site) = crate::LAST_PANIC.lock().unwrap_or_else(|e| e.into_inner()).clone().unwrap_or_else(|| ("<no message>".into(), "?".into()));
-            ex.panic("http:daemon", origin, &raw, Caught { msg, site });
-        } else {
-            let outcome = match status { Some(c) => format!("{}xx", c / 100), None => "no-response".into() };
-            *ex.dist.entry("http:daemon".into()).or_default().entry(origin.into()).or_default().entry(outcome).or_default() += 1;
-        }
+        let (status, panicked) = ctx.send(&mut ex, origin, &raw);
+        if std::env::var("C16_HTTP_DEBUG").is_ok() && (i as usize) < seeds.len() { eprintln!("http {method} {path} -> {status:?} panicked {panicked}"); }
     }
     // the unauthenticated protocol endpoints: POST with every user-agent shape (the value is truncated at byte 256,
     // request.rs:119-133) and arbitrary bodies
@@ -712,19 +931,12 @@ pub fn http_fuzz(args: &Args, rng: &mut Rng, n: u64) -> Explore {
             raw.extend_from_slice(ua);
             raw.extend_from_slice(format!("Content-Type: application/rpki-updown\r\nContent-Length: {}\r\n\r\n", body.len()).as_bytes());
             raw.extend_from_slice(&body);
-            let before = crate::PANIC_COUNT.load(std::sync::atomic::Ordering::SeqCst);
-            let status = http(port, &raw);
-            let after = crate::PANIC_COUNT.load(std::sync::atomic::Ordering::SeqCst);
-            ex.n += 1;
-            if after != before {
-                let (msg, site) = crate::LAST_PANIC.lock().unwrap_or_else(|e| e.into_inner()).clone().unwrap_or_else(|| ("<no message>".into(), "?".into()));
-                ex.panic("http:daemon", "protocol-endpoint-post", &raw, Caught { msg, site });
-            } else {
-                let outcome = match status { Some(c) => format!("{}xx", c / 100), None => "no-response".into() };
-                *ex.dist.entry("http:daemon".into()).or_default().entry(format!("protocol-endpoint-post/ua{k}")).or_default().entry(outcome).or_default() += 1;
-            }
+            ctx.send(&mut ex, &format!("protocol-endpoint-post/ua{k}"), &raw);
         }
     }
+    // last: the DELETE routes of the table (they remove the CAs and publishers the other routes name)
+    route_sweep(&ctx, &mut ex, &routes, true);
+    let _ = std::fs::remove_file(&ctx.inflight);
     if let Some(tx) = daemon.exit.take() { let _ = tx.send(()); }
     let _ = std::fs::remove_dir_all(&daemon.dir);
     Explore { failures: ex.failures, debug_only: ex.debug_only, distribution: serde_json::to_value(&ex.dist).unwrap(), evaluations: ex.n }
